@@ -717,7 +717,7 @@ class C35(core.Check):
     RULE = ('random histories (3-16 statements) of PRINT incl. wrap/scroll/control characters, CLS, COLOR, LOCATE, '
             'VIEW PRINT, SCREEN mode and page switches, WIDTH, KEY ON/OFF, PCOPY, PSET/LINE/CIRCLE/PUT/PAINT/VIEW, '
             'video-memory POKE, console insert/delete/clear-line, on all 9 adapters + a DBCS codepage, a third of them with '
-            'active page != visible page; at random points (`@resume`) and at the end a FRESH reference consumer is '
+            'active page != visible page, an eighth switching from high page numbers to a mode with fewer pages; at random points (`@resume`) and at the end a FRESH reference consumer is '
             'attached via Session.attach (rebuild) and must show the whole picture; after every '
             'statement the reference consumer applied to the recorded signals must equal get_pixels()/get_chars() '
             '(oracle) and the model trace must equal the recorded writes/moves/signals. non-trivial = at least one '
@@ -763,6 +763,13 @@ class C35(core.Check):
              'resume': 0},
             {'cfg': {'video': 'tandy', 'width': 40}, 'stmts': ['KEY ON', 'SCREEN ,,0,1', 'PRINT "on 0"', '@resume',
                                                                'PCOPY 0,1', '@resume'], 'resume': 1},
+            # mode switch while the visible page number does not exist in the new mode (seeded C35c: the new visible
+            # page was never flagged visible, so nothing at all was sent for it)
+            {'cfg': {'video': 'vga'}, 'stmts': ['WIDTH 40', 'SCREEN 0,,5,5', 'PRINT "p5"', 'WIDTH 80', 'PRINT "abc"',
+                                                'CLS', 'PRINT "x"', '@resume'], 'resume': 1},
+            {'cfg': {'video': 'cga'}, 'stmts': ['SCREEN 2,,6,6', 'SCREEN 0,,0,0', 'PRINT "abc"'], 'resume': 1},
+            {'cfg': {'video': 'ega'}, 'stmts': ['SCREEN 7,,1,7', 'PSET (3,3),2', 'SCREEN 9,,0,0', 'LINE (0,0)-(20,5),3,BF',
+                                                '@resume'], 'resume': 0},
             {'cfg': {'video': 'vga'}, 'stmts': [], 'resume': 1},
         ]
 
@@ -779,6 +786,8 @@ class C35(core.Check):
                 hist[k] = hist.get(k, 0) + 1
             if any(x.startswith('SCREEN') and ',,' in x for x in c['stmts']) and '@resume' in c['stmts']:
                 hist['histories with page switch + fresh display'] = hist.get('histories with page switch + fresh display', 0) + 1
+            if any(int(x) >= 4 for st_ in c['stmts'] if st_.startswith('SCREEN') for x in st_.replace(':', ',').split(',')[2:4] if x.strip().isdigit()):
+                hist['histories using page numbers >= 4'] = hist.get('histories using page numbers >= 4', 0) + 1
         self.histogram = hist
         return out
 
@@ -838,6 +847,15 @@ DBCS = ['CHR$(&H81)+CHR$(&H40)', 'CHR$(&HB0)+CHR$(&HA1)+"a"', '"x"+CHR$(&HC4)+CH
 COORDS = [0, 1, 7, 8, 9, 15, 16, 33, 50, 100, 199, 200, 319, 320, 335, 347, 349, 350, 399, 639, 640, 719]
 
 
+# page numbers: modes have 1, 2, 4, 8, 16 or 32 pages; a mode switch may shrink the page list below the page numbers
+# in use (WIDTH 40 has 8 text pages, WIDTH 80 has 4), so numbers at and across those boundaries must occur
+PAGE_POOL = [0, 1, 2, 3, 4, 5, 6, 7, 8, 15, 16, 31]
+
+
+def gen_page(rng):
+    return rng.randrange(0, 3) if rng.random() < 0.55 else rng.choice(PAGE_POOL)
+
+
 def gen_stmt(rng, cfg):
     v = cfg['video']
     r = rng.random()
@@ -875,8 +893,8 @@ def gen_stmt(rng, cfg):
         if k < 0.5:
             return 'SCREEN %d' % rng.choice(MODES[v] + [rng.randrange(0, 14)])
         if k < 0.8:
-            return 'SCREEN ,,%d,%d' % (rng.randrange(0, 4), rng.randrange(0, 4))
-        return 'SCREEN %d,,%d,%d' % (rng.choice(MODES[v]), rng.randrange(0, 3), rng.randrange(0, 3))
+            return 'SCREEN ,,%d,%d' % (gen_page(rng), gen_page(rng))
+        return 'SCREEN %d,,%d,%d' % (rng.choice(MODES[v]), gen_page(rng), gen_page(rng))
     if r < 0.72:
         return 'WIDTH %d' % rng.choice([40, 80, 80, 40, 20])
     if r < 0.76:
@@ -953,8 +971,43 @@ def gen_split_history(rng):
     return {'cfg': cfg, 'stmts': st, 'resume': int(rng.random() < 0.7)}
 
 
+# (statement entering a mode with >= 8 pages, statements leaving it for a mode with <= 4 pages) per adapter
+GRAPHICS_8PG = {'cga': [1, 2], 'ega': [1, 2, 7, 8, 9], 'vga': [1, 2, 7, 8, 9], 'tandy': [1, 2, 3, 4], 'pcjr': [1, 2, 3, 4],
+                'olivetti': [1, 2], 'ega_mono': [10], 'dbcs': [1, 2, 7, 8, 9]}
+
+
+def gen_pagecount_history(rng):
+    """Work on high page numbers of a mode with many pages, then switch to a mode with fewer pages (the old visible /
+    active page numbers no longer exist in the new page list), then produce output and attach fresh displays."""
+    v = rng.choice(sorted(GRAPHICS_8PG))
+    cfg = {'video': v}
+    if rng.random() < 0.5:
+        # 40-column text (8 pages) -> 80-column text (4 pages)
+        cfg['width'] = 40
+        st = [rng.choice(['WIDTH 40', 'SCREEN 0', 'KEY OFF'])]
+        shrink = ['WIDTH 80', 'WIDTH 80', 'SCREEN 0,,0,0:WIDTH 80', 'SCREEN ,,0,0:WIDTH 80', 'WIDTH 80:CLS']
+    else:
+        # graphics mode with 8+ pages -> 80-column text (4 pages) or a small graphics mode
+        st = ['SCREEN %d' % rng.choice(GRAPHICS_8PG[v])]
+        shrink = ['SCREEN 0,,0,0', 'SCREEN 0,,0,0', 'SCREEN 0,,1,1', 'SCREEN 0,,%d,0' % rng.randrange(0, 4),
+                  'SCREEN %d,,0,0' % rng.choice(MODES[v])]
+    hi = rng.choice([4, 5, 6, 7, 7, 4])
+    a = hi if rng.random() < 0.6 else rng.choice([0, 1, hi - 1, 7])
+    st.append(rng.choice(['SCREEN ,,%d,%d' % (a, hi), 'SCREEN ,,%d,%d' % (hi, hi), 'SCREEN ,,%d' % hi]))
+    for _ in range(rng.randrange(0, 3)):
+        st.append(rng.choice(CONTENT))
+    st.append(rng.choice(shrink))
+    for _ in range(rng.randrange(1, 5)):
+        r = rng.random()
+        st.append(rng.choice(CONTENT) if r < 0.5 else '@resume' if r < 0.65 else gen_stmt(rng, cfg))
+    return {'cfg': cfg, 'stmts': st, 'resume': int(rng.random() < 0.7)}
+
+
 def gen_history(rng):
-    if rng.random() < 0.35:
+    r = rng.random()
+    if r < 0.15:
+        return gen_pagecount_history(rng)
+    if r < 0.43:
         return gen_split_history(rng)
     v = rng.choice(sorted(MODES))
     cfg = {'video': v}
